@@ -55,17 +55,23 @@ def build_config(p):
     chain = p["topo"] == "chain"
     common = ["    eject_timeouts: %dms" % p["eject_to"], "    ball_missing_timeouts: %dms" % p["missing_to"],
               "    idle_missing_ball_timeout: %dms" % p["idle_to"], "    confirm_eject_type: target"]
+    lock_lines = ["  lock:", "    ball_switches: s_lock0, s_lock1", "    eject_coil: c_lock",
+                  "    eject_targets: %s" % lock_target, "    eject_events: ev_release_lock",
+                  "    max_eject_attempts: %d" % p["tries_lock"]] + common
     lines += ["ball_devices:",
               "  trough:", "    ball_switches: %s" % ", ".join(sw[:n]), "    eject_coil: c_trough",
               "    tags: trough, home, drain", "    eject_targets: plunger",
               "    max_eject_attempts: %d" % p["tries_trough"]] + common
+    if p.get("lock_first"):
+        # device order in a config file is arbitrary; it decides the order of the balldevice_balls_available handlers
+        lines += lock_lines
     common2 = ["    eject_timeouts: %dms, %dms" % (p["eject_to"], p["eject_to"]),
                "    ball_missing_timeouts: %dms, %dms" % (p["missing_to"], p["missing_to"])] + common[2:]
     lines += ["  plunger:", "    ball_switches: s_plunger", "    eject_coil: c_plunger",
               "    eject_targets: %s" % ("playfield, lock" if chain else "playfield"),
               "    max_eject_attempts: %d" % p["tries_plunger"]] + (common2 if chain else common)
-    lines += ["  lock:", "    ball_switches: s_lock0, s_lock1", "    eject_coil: c_lock",
-              "    eject_targets: %s" % lock_target, "    max_eject_attempts: %d" % p["tries_lock"]] + common
+    if not p.get("lock_first"):
+        lines += lock_lines
     start = sw[:p["balls"]]
     if p.get("lock_balls"):
         start += ["s_lock0", "s_lock1"][:p["lock_balls"]]
@@ -937,6 +943,14 @@ def _run_case(case, run, res, model):
                     expected_pf[0] += 1
                 else:
                     res.count("act_noop")
+            elif k == "stale_release":
+                # the eject hole gets its (config driven) eject event while it is empty: MPF keeps it as a queued request
+                # ("eject the next ball you get") - legal, and it makes the lock a second requester
+                if p["topo"] != "chain" and m.ball_devices["lock"].state != "eject_broken":
+                    run.log("request")
+                    m.events.post("ev_release_lock")
+                else:
+                    res.count("act_noop")
             elif k == "request_lock":
                 dev = m.ball_devices["lock"]
                 if p["topo"] == "chain" and dev.state != "eject_broken" and dev.available_balls < dev.capacity:
@@ -997,10 +1011,16 @@ def classify_fired_full(ff, p, obs, history):
     if any(a == tgt and b == tgt and k == "fallback" for a, b, k, _ in det):
         # the target's own ball (ejected towards the playfield) is falling back while the next ball is fired at it:
         # MPF had confirmed that eject - by a playfield switch hit of *another* ball, or by the timeout
-        last = None
+        last = fired = None
         for i, o in enumerate(obs):
             if o[1] == "ball_eject_success" and o[2] == tgt:
                 last = i
+            if o[1] == "ejecting_ball" and o[2] == tgt:
+                fired = i
+        if fired is not None and (last is None or last < fired):
+            # not one of the known ambiguity classes: MPF has NOT confirmed the target's own eject (no success event, the
+            # target is still in ball_left / failed_confirm) and fires the next ball at it although its ball may come back
+            return "fired-into-full-device:target-eject-unconfirmed"
         by_pf = last is not None and last > 0 and obs[last - 1][1] == "pf_arrived" and obs[last - 1][0] == obs[last][0]
         return "misattributed:playfield-hit-after-return" if by_pf else "fired-into-full-device:fallback-after-eject-timeout"
     if any(k == "verylate" for _, _, k, _ in det):
@@ -1040,7 +1060,7 @@ def _servable(s, p):
     for d in DEVS:
         # requests queued at the lock are for the lock itself (request_ball); a claim of a pending chain (available without
         # a counted ball) serves nothing
-        cands = up[d] + ([d] if d != "lock" else [])
+        cands = up[d] + ([d] if d != "lock" or p["topo"] != "chain" else [])
         if s[d]["reqs"] and any(s[x]["avail"] > 0 and s[x]["counted"] > 0 and s[x]["state"] != "eject_broken" for x in cands):
             return True
     return False
